@@ -78,10 +78,11 @@ def scan_runs(p):
     f, mkseed, term, snap = ACCS[p['acc']]
     term = term if p['term'] else None
     n, ctx, reduce = p['n'], p['ctx'], p['reduce']
-    pre = ['-2**40 <= v%d <= 2**40' % i for i in range(n)]
+    nsym = min(n, p.get('nsym', n))        # long runs: the first nsym items are symbolic, the rest are the concrete values 0, 1, 2 ...
+    pre = ['-2**40 <= v%d <= 2**40' % i for i in range(nsym)]
 
     def body(a):
-        items = list(a)
+        items = list(a) + list(range(nsym, n))
         seed = mkseed() if p['seedkind'] == 'value' else mkseed
         op = rs.ops.scan(f, seed, reduce=reduce, terminator=term)
         if ctx in ('plain', 'root'):
@@ -101,6 +102,10 @@ def scan_runs(p):
         inner = [D.tap(head), op, D.tap(tail, snap)]
         if ctx == 'group':
             pipe = [rs.ops.group_by(lambda i: 0 if i % 2 == 0 else 1, inner)]
+        elif ctx == 'roll11':
+            pipe = [rs.data.roll(1, 1, inner)]       # every item is a lifetime of its own: many seedings of the same scan on one slot
+        elif ctx == 'roll21':
+            pipe = [rs.data.roll(2, 1, inner)]       # overlapping lifetimes alternating between two slots
         else:
             pipe = [rs.data.roll(2, 2, inner)]
         err = []
@@ -114,7 +119,7 @@ def scan_runs(p):
             if o != exp:
                 return fail(ctx=ctx, items=items, lifetime_items=i, observed=o, expected=exp)
         return True
-    return mk('scan_runs', ints('v', n), pre, body)
+    return mk('scan_runs', ints('v', nsym), pre, body)
 
 
 def scan_step(p):
@@ -314,6 +319,11 @@ def obligations(tier, seed):
                         for ev in ('next', 'complete'):
                             obs.append(Ob(PROP, 'scan_step', dict(acc=acc, reduce=reduce, term=term, event=ev), budget=b,
                                           bound=dict(step='one event from an arbitrary stored accumulator (history of any length)')))
+    for acc in ('app', 'nest', 'pair'):
+        for seedkind in ('value', 'factory'):
+            for ctx, n in (('roll11', 20), ('roll21', 36)) if q else (('roll11', 20), ('roll21', 36), ('roll11', 70), ('roll21', 140), ('roll11', 300)):
+                obs.append(Ob(PROP, 'scan_runs', dict(acc=acc, seedkind=seedkind, reduce=False, term=False, ctx=ctx, n=n, nsym=2), budget=b * 2, group='scan_runs:many lifetimes',
+                              bound=dict(items=n, lifetimes=n, acc=acc, seed=seedkind, values='2 symbolic items, the rest concrete')))
     for op in DERIVED:
         for mode in ('plain', 'mux'):
             for n in ((0, 3) if q else (0, 1, 4, 5)):
